@@ -145,7 +145,7 @@ def rule_unchecked(fx, rep):
                 continue
             pth, c, cond = oks[0]
             reads = [e for e in pth.events if e[0] == 'read_be']
-            lost = [x for e in reads for x in e[3]]
+            lost = [x for e in reads for x in e[3]] + [x for e in pth.events if e[0] == 'repr-at-range-check' for x in e[3]]
             rep.check(reads and not lost, 'TABLE', inst + ':no-input-bit-discarded',
                       'the coordinates are read from the input bytes with only the three (already decided) flag bits masked',
                       'input bits are cleared without having been tested: %s (byte index, bit mask) -- encodings differing in those bits decode identically'
